@@ -1582,6 +1582,10 @@ class _NP(object):
             w = widths if not isinstance(widths[0], (tuple, list)) else widths[0]
             widths = (tuple(w),)
         widths = [tuple(_generic(v) for v in w) for w in widths]
+        for w in widths:
+            for v in w:
+                if bool(sym.cmp('<', v, 0)):          # numpy: ValueError (a path of its own when the sign of a symbolic width is open)
+                    raise PyRaise('ValueError', "index can't contain negative values")
         f = a.snap()
         shape = tuple(_simp(sym.add(sym.add(d, w[0]), w[1])) for d, w in zip(a.shape, widths))
         oshape = a.shape
